@@ -1,6 +1,7 @@
 //! crash-probe: destructor re-entrancy scenarios that can abort the whole process (a panic inside
 //! a destructor that runs during async-task's cleanup is not unwindable), so each one is executed
-//! in a forked child and judged by the child's exit status. Serves C08 / C06.
+//! in a forked child and judged by the child's exit status (crash) and by the poller's interest list
+//! afterwards (the adapter's fd must be gone). Serves C08 / C06 / C16.
 //!
 //! Every scenario removes (in one of the ways the loop offers) a source whose destruction needs
 //! the loop again: an executor whose pending future owns an `Async` adapter of the same loop, or
@@ -22,6 +23,20 @@ struct D {
     h: Option<LoopHandle<'static, D>>,
 }
 
+thread_local! {
+    /// (fd number of an adapted socket, a duplicate that keeps its open file description alive):
+    /// closing the last descriptor would make the kernel drop the epoll entry by itself and hide
+    /// an adapter that failed to unregister.
+    static WATCH: std::cell::RefCell<Vec<(i32, i32)>> = std::cell::RefCell::new(vec![]);
+}
+
+fn watch(s: &UnixStream) {
+    use std::os::fd::AsRawFd;
+    let fd = s.as_raw_fd();
+    let dup = unsafe { libc::dup(fd) };
+    WATCH.with(|w| w.borrow_mut().push((fd, dup)));
+}
+
 fn exec_with_adapter(h: &LoopHandle<'static, D>) -> (RegistrationToken, UnixStream, calloop::futures::Scheduler<u8>) {
     let (exec, sched) = executor::<u8>().unwrap();
     let tok = h.insert_source(exec, |_, _, d: &mut D| {
@@ -31,6 +46,7 @@ fn exec_with_adapter(h: &LoopHandle<'static, D>) -> (RegistrationToken, UnixStre
         }
     }).unwrap();
     let (a, b) = UnixStream::pair().unwrap();
+    watch(&a);
     let mut ad = h.adapt_io(a).unwrap();
     sched.schedule(async move {
         ad.readable().await;
@@ -39,7 +55,7 @@ fn exec_with_adapter(h: &LoopHandle<'static, D>) -> (RegistrationToken, UnixStre
     (tok, b, sched)
 }
 
-fn scenario(n: usize) -> Option<&'static str> {
+fn scenario(n: usize) -> Option<(&'static str, bool)> {
     let mut el: EventLoop<'static, D> = EventLoop::try_new().unwrap();
     let h = el.handle();
     let mut d = D { victim: None, h: Some(h.clone()) };
@@ -77,6 +93,7 @@ fn scenario(n: usize) -> Option<&'static str> {
         }
         3 => {
             let (a, _b) = UnixStream::pair().unwrap();
+            watch(&a);
             let ad = h.adapt_io(a).unwrap();
             let (_ping, src) = make_ping().unwrap();
             let tok = h.insert_source(src, move |_, _, _: &mut D| {
@@ -88,6 +105,7 @@ fn scenario(n: usize) -> Option<&'static str> {
         }
         4 => {
             let (a, _b) = UnixStream::pair().unwrap();
+            watch(&a);
             let ad = h.adapt_io(a).unwrap();
             h.insert_source(Timer::immediate(), move |_, _, _: &mut D| {
                 let _keep = &ad;
@@ -99,6 +117,7 @@ fn scenario(n: usize) -> Option<&'static str> {
         }
         5 => {
             let (a, _b) = UnixStream::pair().unwrap();
+            watch(&a);
             let ad = h.adapt_io(a).unwrap();
             let (ping, src) = make_ping().unwrap();
             h.insert_source(src, move |_, _, _: &mut D| {
@@ -119,7 +138,12 @@ fn scenario(n: usize) -> Option<&'static str> {
         _ => return None,
     };
     d.h.take();
-    Some(name)
+    // every adapter of the scenario has been dropped together with the source that owned it: its
+    // fd must have left the poller (C16), although the open file description is still alive
+    use std::os::fd::AsRawFd;
+    let table = crate::epoll::table(el.as_raw_fd());
+    let leftover = WATCH.with(|w| w.borrow().iter().any(|(fd, _)| table.iter().any(|e| e.fd == *fd)));
+    Some((name, leftover))
 }
 
 pub fn run() -> Report {
@@ -138,6 +162,7 @@ pub fn run() -> Report {
             }
             let r = std::panic::catch_unwind(|| scenario(n));
             let code = match r {
+                Ok(Some((_, true))) => 4,
                 Ok(Some(_)) => 0,
                 Ok(None) => 77,
                 Err(_) => 3,
@@ -155,7 +180,18 @@ pub fn run() -> Report {
         rep.transitions += 1;
         outcomes.insert((n, code));
         *rep.clause_counts.entry("destructor-reentrancy".into()).or_insert(0) += 1;
-        if !(exited && code == 0) {
+        if exited && code == 4 {
+            let mut features = BTreeMap::new();
+            features.insert("scenario".to_string(), n.to_string());
+            rep.violations.push(Violation {
+                props: vec!["C16".into(), "C17".into(), "C06".into()],
+                clause: "adapter-fd-still-registered".into(),
+                features,
+                message: format!("scenario {n}: the Async adapter was dropped together with the removed source that owned it, but its fd is still in the poller's interest list (ghost events, EEXIST when the fd is inserted again)"),
+                tape: vec![n as u32],
+                decoded: vec![format!("crash-probe scenario {n}")],
+            });
+        } else if !(exited && code == 0) {
             let how = if exited { format!("panicked (exit status {code})") } else { format!("was killed by signal {} (abort)", libc::WTERMSIG(st)) };
             let mut features = BTreeMap::new();
             features.insert("scenario".to_string(), n.to_string());
